@@ -207,14 +207,13 @@ static int ubuf_block_mem_dup(struct ubuf *ubuf, struct ubuf **new_ubuf_p)
 
     struct ubuf *new_ubuf = ubuf_block_mem_to_ubuf(new_block);
     ubuf_block_common_init(new_ubuf, false);
+    struct ubuf_block_mem *block_mem = ubuf_block_mem_from_ubuf(ubuf);
+    new_block->shared = ubuf_mem_shared_use(block_mem->shared);
     if (unlikely(!ubase_check(ubuf_block_common_dup(ubuf, new_ubuf)))) {
         ubuf_free(new_ubuf);
         return UBASE_ERR_INVALID;
     }
     *new_ubuf_p = new_ubuf;
-
-    struct ubuf_block_mem *block_mem = ubuf_block_mem_from_ubuf(ubuf);
-    new_block->shared = ubuf_mem_shared_use(block_mem->shared);
     return UBASE_ERR_NONE;
 }
 
@@ -249,15 +248,14 @@ static int ubuf_block_mem_splice(struct ubuf *ubuf, struct ubuf **new_ubuf_p,
 
     struct ubuf *new_ubuf = ubuf_block_mem_to_ubuf(new_block);
     ubuf_block_common_init(new_ubuf, false);
+    struct ubuf_block_mem *block_mem = ubuf_block_mem_from_ubuf(ubuf);
+    new_block->shared = ubuf_mem_shared_use(block_mem->shared);
     if (unlikely(!ubase_check(ubuf_block_common_splice(ubuf, new_ubuf,
                                                        offset, size)))) {
         ubuf_free(new_ubuf);
         return UBASE_ERR_INVALID;
     }
     *new_ubuf_p = new_ubuf;
-
-    struct ubuf_block_mem *block_mem = ubuf_block_mem_from_ubuf(ubuf);
-    new_block->shared = ubuf_mem_shared_use(block_mem->shared);
     return UBASE_ERR_NONE;
 }
 
